@@ -148,6 +148,8 @@ impl<'a> StateMachine<'a> {
         I: BufRead,
     {
         while let Some(Ok(raw_line_bytes)) = lines.next() {
+            #[cfg(dandavison_delta_verif)]
+            crate::verif_hooks::boundary(self);
             self.ingest_line(raw_line_bytes);
 
             if self.source == Source::Unknown {
@@ -182,10 +184,14 @@ impl<'a> StateMachine<'a> {
                 || self.should_skip_line()
                 || self.emit_line_unchanged()?;
         }
+        #[cfg(dandavison_delta_verif)]
+        crate::verif_hooks::boundary(self);
 
         self.handle_pending_line_with_diff_name()?;
         self.painter.paint_buffered_minus_and_plus_lines();
         self.painter.emit()?;
+        #[cfg(dandavison_delta_verif)]
+        crate::verif_hooks::boundary(self);
         Ok(())
     }
 
